@@ -76,13 +76,36 @@ def run_case(ctx, case_seed):
     for kind, prefix in CONFIGS:
         with open_box(kind, prefix=prefix) as box:
             saved = []
-            for cat, md in specs:
+            reader = box.reader()
+            hrng = random.Random(case_seed + 77)
+            half = len(specs) // 2
+            for si, (cat, md) in enumerate(specs):
                 rec = box.cassette.create_new_recording(cat)
                 rec.set_data('x', md['tok'])
                 rec.add_metadata(dict(md))
                 box.cassette.save_recording(rec)
                 saved.append((rec.id, cat, md))
-            reader = box.reader()
+                if si == half - 1:
+                    # history: listings (with filters) happen between saves, and a recording may be saved again under its id
+                    # with other metadata; later listings must reflect the current store
+                    for cat2, flt2, limit2, rnd2, path2 in queries[:4]:
+                        try:
+                            list(reader.iter_recording_ids(cat2, metadata=flt2 or {'k': [1, 'a*']}, limit=limit2))
+                        except Exception:
+                            pass
+                    ctx.count('mid_history_listings', 4)
+            if saved and hrng.random() < 0.5:
+                from playback.recordings.memory.memory_recording import MemoryRecording
+                for _ in range(hrng.randrange(1, 3)):
+                    j = hrng.randrange(len(saved))
+                    rid, cat, md = saved[j]
+                    md2 = gen_md(hrng, md['tok'])
+                    again = MemoryRecording(rid)
+                    again.set_data('x', md['tok'])
+                    again.add_metadata(dict(md2))
+                    box.cassette.save_recording(again)
+                    saved[j] = (rid, cat, md2)
+                    ctx.count('resaves_under_same_id')
             tok_of = {rid: md['tok'] for rid, _, md in saved}
             for qi, (cat, flt, limit, rnd, path) in enumerate(queries):
                 desc = {'store': [(c, m) for c, m in specs], 'cassette': kind + ':' + prefix, 'category': cat,
